@@ -35,11 +35,16 @@ def env_tasks(tier, seed):
             ('debug-logging', 'misc')]
 
 
-def check_prefix(ctx, prefix, label, cut):
+BUFFER_KINDS = [('a bytearray', bytearray),
+                ('a view of a bytearray', lambda b: memoryview(bytearray(b)))]
+
+
+def check_prefix(ctx, prefix, label, cut, raw=None):
     p = lib.pamqp()
+    given, prefix = prefix, (prefix if raw is None else raw)
     try:
         with runner.guard(10):
-            consumed, channel, obj = p.frame.unmarshal(prefix)
+            consumed, channel, obj = p.frame.unmarshal(given)
     except p.exceptions.UnmarshalingException:
         ctx.outcome('unmarshaling-exception')
         return
@@ -110,6 +115,7 @@ def run_frames(task, ctx, env):
         if env and len(data) > 5000:
             continue
         cuts = faults.cut_points(data, fields, every=False)
+        views = task[0] in ('rep', 'misc') and len(data) <= 600
         if len(data) > 4096:
             ctx.count('frames_cut_structurally')
         ctx.count('frames')
@@ -123,6 +129,15 @@ def run_frames(task, ctx, env):
             check_prefix(ctx, prefix, label, cut)
             ctx.calls()
             ctx.valid()
+            if views:
+                # a sans-io client's receive buffer is as often a bytearray
+                # (or a view of one) as it is bytes
+                for kind, make in BUFFER_KINDS:
+                    ctx.case((prefix, env, kind), cut >= 7)
+                    check_prefix(ctx, make(prefix), label + ' [given as ' +
+                                 kind + ']', cut, raw=prefix)
+                    ctx.calls()
+                    ctx.valid()
 
 
 def replay(case, ctx):
@@ -134,8 +149,12 @@ def replay(case, ctx):
         else:
             check_whole(ctx, data, case.get('label', ''), '')
         return
+    given, raw = data, None
+    for kind, make in BUFFER_KINDS:
+        if '[given as ' + kind + ']' in case.get('label', ''):
+            given, raw = make(data), data
     if '[debug logging on]' in case.get('label', ''):
         with lib.debug_logging():
-            check_prefix(ctx, data, case.get('label', ''), len(data))
+            check_prefix(ctx, given, case.get('label', ''), len(data), raw)
         return
-    check_prefix(ctx, data, case.get('label', ''), len(data))
+    check_prefix(ctx, given, case.get('label', ''), len(data), raw)
